@@ -587,6 +587,7 @@ LEVEL_TEXT = ('Exploration by runtime monitoring: on each synthetic world (molec
               'executions are compared point by point (1e-10; the exp(-10) cut-off only in layers where a skip was '
               'observed; the Abel-bounded clamp licence for emission). Binning of restricted vs full results is compared '
               'under the generator-enforced width condition; opacity objects are queried on own and foreign points. '
-              'NUMBA_BOUNDSCHECK=1 turns any stale per-grid size into an IndexError.')
+              'NUMBA_BOUNDSCHECK=1 turns any stale per-grid size into an IndexError.'
+              ' Results the caller keeps and work arrays it re-uses are followed by an ownership ledger (vmon/own.py).')
 LEVEL_NOTE = 'Trusted: FluxBinner/ArraySpectrum as the binning path of the repository (their own correctness is C05/C17).'
 TECHNIQUE = 'paired-execution differential monitor (full vs restricted grid) with call taps + numba bounds-check sanitizer'
